@@ -208,7 +208,7 @@ def ctype_name(t, typemap):
     raise ExtractionError("cast to unknown type %r (add it to the unit's typemap)" % t)
 
 
-def apply_rules(piece, typemap=None, subs=(), must_fire=(), drop=(), keep_this=False):
+def apply_rules(piece, typemap=None, subs=(), must_fire=(), drop=(), keep_this=False, ret_struct=None):
     """apply the generic rules R2,R3,R5,R6,R16 and the per-unit substitutions `subs`
     (rule id, regex, replacement[, expected count]).  Returns the C text."""
     typemap = typemap or {}
@@ -229,6 +229,10 @@ def apply_rules(piece, typemap=None, subs=(), must_fire=(), drop=(), keep_this=F
                 piece.relpath, piece.line_start, rule, pat, n, want if want is not None else '>=1'))
         note(rule, n)
 
+    # R10 braced return of an aggregate -> compound literal of the unit's declared return struct
+    if ret_struct:
+        t, n = re.subn(r'\breturn\s*\{', 'return (%s){' % ret_struct, t)
+        note('R10', n)
     # R16 namespace prefixes
     t, n = re.subn(r'(?<![\w:])(?:::)?(?:dispenso::)?detail::', '', t)
     note('R16', n)
